@@ -696,6 +696,9 @@ type timerCase struct {
 	Peer     string `json:"peer"`     // live silent silent-control silent-media
 	Idle     int    `json:"idle_timeout_s"`
 	Read     int    `json:"read_timeout_s"`
+	// Stage: "" = the session is streaming (after PLAY / RECORD); "announced" (record only), "setup" (after the
+	// SETUP, before PLAY / RECORD), "paused" (PLAY / RECORD, then PAUSE): the peer is live or silent in that state
+	Stage string `json:"stage,omitempty"`
 }
 
 func runTimer(tc timerCase) (f *fail) {
@@ -733,6 +736,9 @@ func runTimer(tc timerCase) (f *fail) {
 	}
 	defer peer.Close()
 	name := fmt.Sprintf("timer/%s/%s", tc.Scenario, tc.Peer)
+	if tc.Stage != "" {
+		name = fmt.Sprintf("timer/%s/%s-while-%s", tc.Scenario, tc.Peer, tc.Stage)
+	}
 	do := func(st string, sess string) (*base.Response, error) {
 		var idx int
 		for i, a := range alphabet {
@@ -758,7 +764,9 @@ func runTimer(tc timerCase) (f *fail) {
 		if r, ff = must("ANNOUNCE1", ""); ff != nil {
 			return ff
 		}
-		if udp {
+		if tc.Stage == "announced" {
+			// no SETUP: the session exists (state pre-record) and its id has not been told to the peer
+		} else if udp {
 			r, ff = must("SETUP0-record-udp", "")
 		} else {
 			r, ff = must("SETUP0-record-tcp", "")
@@ -774,23 +782,32 @@ func runTimer(tc timerCase) (f *fail) {
 		return ff
 	}
 	var sh headers.Session
-	if err := sh.Unmarshal(r.Header["Session"]); err != nil {
-		return &fail{"timer/harness/no-session-header", fmt.Sprint(r.Header)}
+	if tc.Stage != "announced" {
+		if err := sh.Unmarshal(r.Header["Session"]); err != nil {
+			return &fail{"timer/harness/no-session-header", fmt.Sprint(r.Header)}
+		}
+		sess = sh.Session
 	}
-	sess = sh.Session
 	advertised := time.Duration(60) * time.Second
 	if sh.Timeout != nil {
 		advertised = time.Duration(*sh.Timeout) * time.Second
 	}
 	var th headers.Transport
 	th.Unmarshal(r.Header["Transport"]) //nolint:errcheck
-	if record {
+	if tc.Stage == "announced" || tc.Stage == "setup" {
+		// stays before PLAY / RECORD
+	} else if record {
 		_, ff = must("RECORD", sess)
 	} else {
 		_, ff = must("PLAY", sess)
 	}
 	if ff != nil {
 		return ff
+	}
+	if tc.Stage == "paused" {
+		if _, ff = must("PAUSE", sess); ff != nil {
+			return ff
+		}
 	}
 	var ssPtr *gortsplib.ServerSession
 	for _, e := range env.Log.Snapshot() {
@@ -852,7 +869,11 @@ func runTimer(tc timerCase) (f *fail) {
 		return nil
 	}
 	keepalive := func() *fail {
-		r, err := do("GET_PARAMETER", sess)
+		kreq := "GET_PARAMETER"
+		if sess == "" {
+			kreq = "OPTIONS" // the id is not known to the peer (ANNOUNCE does not return it): activity on the connection
+		}
+		r, err := do(kreq, sess)
 		if err != nil || r.StatusCode != base.StatusOK {
 			return &fail{name + "/keepalive-refused", fmt.Sprintf("keep-alive of a live peer failed: %v %v (%+v)", r, err, tc)}
 		}
@@ -860,8 +881,12 @@ func runTimer(tc timerCase) (f *fail) {
 	}
 	// the relevant timeout of this scenario
 	timeout := idle
-	if record {
+	if record && tc.Stage == "" {
 		timeout = read
+	}
+	if tc.Stage != "" {
+		// not streaming: the only duty of a live peer is activity on the control connection
+		record, udp = false, false
 	}
 	period := time.Second // Server.checkStreamPeriod
 	if stalled {
@@ -1175,14 +1200,29 @@ func main() {
 	for _, sc := range []string{"tcp-play", "udp-play", "udp-record", "tcp-record"} {
 		for _, p := range []string{"live", "live-irregular", "silent"} {
 			for _, t := range [][2]int{{6, 2}, {10, 10}, {60, 10}} {
-				tc := timerCase{sc, p, t[0], t[1]}
+				tc := timerCase{Scenario: sc, Peer: p, Idle: t[0], Read: t[1]}
 				tcs = append(tcs, tc)
 				tjobs = append(tjobs, job{Kind: "timer", Timers: []timerCase{tc}})
 			}
 		}
 	}
+	// the peer is live / goes silent in a state other than streaming
+	for _, st := range []string{"announced", "setup", "paused"} {
+		for _, sc := range []string{"tcp-play", "udp-play", "udp-record", "tcp-record"} {
+			if st == "announced" && sc != "tcp-record" {
+				continue
+			}
+			for _, p := range []string{"live", "silent"} {
+				for _, t := range [][2]int{{6, 2}, {10, 10}} {
+					tc := timerCase{Scenario: sc, Peer: p, Idle: t[0], Read: t[1], Stage: st}
+					tcs = append(tcs, tc)
+					tjobs = append(tjobs, job{Kind: "timer", Timers: []timerCase{tc}})
+				}
+			}
+		}
+	}
 	for _, rq := range []string{"PAUSE", "GET_PARAMETER", "TEARDOWN", "PLAY", "SETUP1-play-tcp", "OPTIONS", "RECORD"} {
-		tc := timerCase{"tcp-play", "stalled-reader:" + rq, 10, 10}
+		tc := timerCase{Scenario: "tcp-play", Peer: "stalled-reader:" + rq, Idle: 10, Read: 10}
 		tcs = append(tcs, tc)
 		tjobs = append(tjobs, job{Kind: "timer", Timers: []timerCase{tc}})
 	}
